@@ -38,7 +38,10 @@ func must(err error) {
 	}
 }
 
-func seed(m *model) {
+// softStamp: the content of deleted_at of a row seeded as soft-deleted.
+const softStamp = "2001-09-09 01:46:40+00:00"
+
+func seed(m *model, dead map[string]bool) {
 	_, err := H.SQL.Exec("DELETE FROM `" + m.table + "`")
 	must(err)
 	var cols []string
@@ -53,6 +56,16 @@ func seed(m *model) {
 		}
 		_, err := H.SQL.Exec(q, args...)
 		must(err)
+		if dead[normL(r.key)] {
+			var w []string
+			var wa []interface{}
+			for _, f := range m.pks {
+				w = append(w, "`"+f.col+"` = ?")
+				wa = append(wa, dbArg(r.cells[f.idx].v))
+			}
+			_, err := H.SQL.Exec("UPDATE `"+m.table+"` SET `"+softCol+"` = '"+softStamp+"' WHERE "+strings.Join(w, " AND "), wa...)
+			must(err)
+		}
 	}
 }
 
@@ -79,13 +92,22 @@ func condKeys(m *model, o *op) map[string]bool {
 	if len(o.conds) == 0 {
 		return nil
 	}
-	var parts []string
 	var args []interface{}
-	for _, c := range o.conds {
-		parts = append(parts, "("+c.rsql+")")
+	// Where(a).Where(b).Or(c).Or(d): (a AND b) OR c OR d (an Or never precedes a Where); soft-deleted
+	// rows are part of this set, the prediction leaves them out unless the chain is Unscoped
+	expr := ""
+	for i, c := range o.conds {
+		switch {
+		case i == 0:
+		case c.or:
+			expr += " OR "
+		default:
+			expr += " AND "
+		}
+		expr += "(" + c.rsql + ")"
 		args = append(args, c.rargs...)
 	}
-	rows, err := vdb.RowMaps(H.SQL, "SELECT * FROM `"+m.table+"` WHERE "+strings.Join(parts, " AND "), args...)
+	rows, err := vdb.RowMaps(H.SQL, "SELECT * FROM `"+m.table+"` WHERE "+expr, args...)
 	must(err)
 	out := map[string]bool{}
 	for _, r := range rows {
@@ -303,7 +325,7 @@ func run(c *core.Ctx) {
 		var handle *gorm.DB
 		var firstDesc string
 		for o := first; o != nil; o = o.next {
-			seed(m)
+			seed(m, o.dead)
 			before := snapshot(m)
 			if len(before) != len(m.rows) {
 				c.Inconclusive("harness: seeding failed")
@@ -366,6 +388,41 @@ func run(c *core.Ctx) {
 				c.Inc("ops_second_finisher_on_handle")
 			}
 			probs := compare(m, p, before, after, t0, t1)
+			nDeadAddressed := 0
+			if m.soft {
+				// the soft-delete column: no operation hands a value over for it, so a row outside the target
+				// set keeps it, and a target row keeps it or gets the NULL of the zero field value
+				tg := map[string]bool{}
+				for _, k := range p.target {
+					tg[k] = true
+				}
+				var bks []string
+				for k := range before {
+					bks = append(bks, k)
+				}
+				sort.Strings(bks)
+				for _, k := range bks {
+					a, ok := after[k]
+					if !ok {
+						continue
+					}
+					b := before[k][softCol]
+					if a[softCol] != b && !(tg[k] && a[softCol] == "NULL") {
+						probs = append(probs, problem{Row: k, Col: softCol, Class: "soft-delete-column-written", Got: a[softCol], Want: b + " (unchanged)", Before: b, Why: "no value is handed over for the soft-delete field"})
+					}
+				}
+				if updateKind(o.kind) && !o.unscoped {
+					keys := map[string]bool{}
+					for _, k := range o.modelKeys {
+						keys[normL(k)] = true
+					}
+					for k := range o.dead {
+						if (ck == nil || ck[k]) && (len(o.modelKeys) == 0 || keys[k]) {
+							nDeadAddressed++
+						}
+					}
+				}
+			}
 			o.doNothingWhere = false
 			if o.kind == "upsert-all" && o.ocWhere != nil {
 				for _, e := range evs {
@@ -565,6 +622,24 @@ func run(c *core.Ctx) {
 			if o.dropKey {
 				c.Inc("ops_create_key_carried_but_omitted")
 			}
+			if m.soft {
+				c.Inc("ops_on_soft_delete_model")
+				if len(o.dead) > 0 {
+					c.Inc("ops_update_with_soft_deleted_rows")
+				}
+				if o.unscoped {
+					c.Inc("ops_update_unscoped")
+				}
+				if nDeadAddressed > 0 {
+					c.Inc("ops_update_conditions_or_key_match_soft_deleted_row")
+				}
+			}
+			if cf := condForm(o); strings.Contains(cf, "o") {
+				c.Inc("ops_update_conditions_joined_with_or_" + cf)
+				if nDeadAddressed > 0 {
+					c.Inc("ops_update_or_conditions_match_soft_deleted_row")
+				}
+			}
 			if o.returning != "" {
 				c.Inc("ops_" + o.family + "_with_returning_" + o.returning)
 				if o.second {
@@ -681,7 +756,7 @@ func run(c *core.Ctx) {
 				sort.Strings(du)
 				c.Shape(o.kind, o.tform, o.selMode, spell, ph, fm, nMust > 0, nRefresh > 0, nNarrow > 0, nZero > 0, len(p.target) > 1, m.pk.k.name, len(m.pks), dh, o.dropKey, o.reordered, listForm(o),
 					nEmb > 0, m.layoutName(), du, sliceForm(m, o), nEmpty > 0, o.returning, o.second, extraForm(m, o), o.noTable,
-					relShape, upsertForm(m, o, p))
+					relShape, upsertForm(m, o, p), nDeadAddressed > 0)
 				if c.WantSample() && i == 5 {
 					c.Sample(map[string]interface{}{"model": m.decls(), "operation": desc, "target_rows": p.target, "sql": sqlOf(evs),
 						"checked": fmt.Sprintf("%d written cells, %d denied, %d narrowed, %d refreshed, %d rows outside the target unchanged", nMust, nDenied, nNarrow, nRefresh, len(m.rows)-len(p.target))})
@@ -734,8 +809,40 @@ func extraForm(m *model, o *op) string {
 		}
 		sort.Strings(others)
 		return fmt.Sprintf("assoc %s ptr=%v fk=%v slice=%v/%v table=%v argslice=%v mem=%v", a.rel.typ, a.rel.ptr, a.rel.fk != nil && a.rel.fk.k.name != "", a.slice, a.elemPtr, a.withTable, a.argSlice, others)
+	case updateKind(o.kind):
+		// the join of the chain's conditions, and on a soft-delete model: are soft-deleted rows matched
+		return condForm(o) + " " + softForm(m, o)
+	}
+	if m.soft {
+		return "soft-model"
 	}
 	return ""
+}
+
+// condForm: how the conditions of the chain are joined: "" | w | ww | wo | woo | wwo | wwoo.
+func condForm(o *op) string {
+	s := ""
+	for _, c := range o.conds {
+		if c.or {
+			s += "o"
+		} else {
+			s += "w"
+		}
+	}
+	return s
+}
+
+// softForm: on a soft-delete model, what the soft-deleted rows of an update look like.
+func softForm(m *model, o *op) string {
+	switch {
+	case !m.soft:
+		return ""
+	case len(o.dead) == 0:
+		return "soft:none-dead"
+	case o.unscoped:
+		return "soft:unscoped"
+	}
+	return "soft:dead-rows"
 }
 
 // sliceForm: what the elements of a Model(slice) look like (part of the case shape).
@@ -826,8 +933,10 @@ var Engine = &core.Engine{
 		"FIRSTORCREATE (4 kinds in 38): db[.Model(&T{})].Where(..)[.Select/Omit][.Attrs(a)][.Assign(b)].FirstOrCreate(&dest[, cond]) with a and b each a map (every value form) or a struct by value / pointer (1..3 non-zero fields, pointer-to-zero included), Model(&T{}) on the chain one time in two, the single condition handed to the finisher instead of to Where one time in four, dest zero, carrying a key, or (not-found path) carrying values of its own; FOUND path (conditions of the 8 Where forms, none at all, or dest's key): with Assign the values of b must reach - exactly as Updates(map of b's keys / b's non-zero fields) would: permission tags, Select/Omit, refresh of tracked update time - the FOUND row only (first by primary key among the rows matching the conditions; 2..5 rows match in half of the cases) and no other row matching the conditions; with Attrs only nothing may be written; NOT-FOUND path (a new key as map condition, as string condition, or a fresh value of a data column as map / struct condition, dest with the new key or a database-assigned one): the created row is dest overlaid with the equality conditions, Attrs, then Assign, and obeys the rules of Create (create permission, Select/Omit, defaults); " +
 		"ASSOCIATION MODE (7 kinds in 38, models with an association field that has every permission): one model in two has 1..2 association fields to static types - has-many Pets []C10Pet | []*C10Pet, has-one Toy, belongs-to Company with its foreign-key field CompanyID (int64 | *int64 | sql.NullInt64 | uint; an ordinary data field for every other operation), many2many Tags - with foreignKey / references / joinForeignKey named in the tag for all four key kinds; db[.Table(t)].Model(&owner | &[]T{o1, o2} | &[]*T{o1, o2}).Association(name).Append / Replace / Clear / Delete(records as pointers or one slice; existing, new and database-assigned keys) where every in-memory owner has the key of a seeded row and data fields that DIFFER from the row (the row changed behind its back), and one relation field in two - the relation itself or another one - already carries loaded / never-saved records: of the owner's table only the foreign key of the belongs-to relation may change (Append / Replace: the key of the linked record; Clear: NULL; Delete: NULL where the row is linked to a named record), in the owners' rows only; every other cell keeps its content; " +
 		"RELATION FIELDS WITH PERMISSION TAGS: one model in two has 1..2 association fields (see association mode), each with a random permission tag in front of or behind its key names - none (8 in 23), <-:create, <-:update, <-:false, ->, ->;<-:create, <-, -:migration, -, -:all, <-:false;->:false - and in every struct value of a write (each record of Create / CreateInBatches / upsert / Save, the value of Updates / UpdateColumns, the Model value - every element of a Model(slice) - of Updates / Update / UpdateColumn(s)) every relation field carries, one time in two, 1..2 associated records (has-one / belongs-to: 1) with a new key, a key the database assigns or the key of a stored, unlinked record: the tables behind a relation (c10_pets | c10_toys | c10_companies | c10_tags + join table, re-seeded before and read back with raw SQL after every such write) must come back UNCHANGED when the relation field has no permission for the path the value takes - create for Create / CreateInBatches / new keys of an upsert or Save(slice) / Save of a zero key, update for Updates / Update / UpdateColumn(s) and for Save of an existing key whose UPDATE certainly runs, create-or-update (only a relation that has neither is certainly not written) for records whose key conflicts in an upsert or Save(slice), for Save of a new non-zero key, Save under conditions and a Save whose UPDATE may be empty (Save falls back to its upsert); " +
+		"OR-JOINED CONDITIONS: two in five of the update chains addressed by conditions alone (key-less Model(&T{})) append 1..2 alternatives, Where(a)[.Where(b)].Or(c)[.Or(d)] with every condition one of the 8 Where forms (string with arguments, map, IN lists, composite 'k1 = ? AND k2 = ?'): exactly the rows of (a AND b) OR c OR d change; " +
+		"SOFT-DELETE MODELS: one model in three has a top-level field DeletedAt gorm.DeletedAt (column deleted_at, declared at a random position behind the key, never given a value); all write paths run on such a model with every row live, and for the update finishers (Updates / Update / UpdateColumn(s), first and second finisher on a handle, every target form: Model key, Model(slice), the value as model, conditions, Or-joined conditions) three operations in four seed 1..n-1 of the rows as SOFT-DELETED (deleted_at holds a time): a soft-deleted row that matches the chain's conditions / the Model key - in particular one matching a non-last branch of an Or chain - must come back unchanged cell by cell (class soft-deleted-row-changed), unless the chain carries Unscoped() (one chain in five, as first or as last call of the chain), which makes it an ordinary target row; deleted_at itself must keep its content in every row outside the target set and may only keep it or become NULL (the zero field value under Select('*') / Save / UpdateAll) inside (class soft-delete-column-written); " +
 		"one chain in four does not start with db.Table(name) (the table is the one of the model's schema); " +
-		"distinct = (finisher, target form, Select/Omit mode and spelling, permission tags denied, value forms, which check classes occurred, key kind, kinds of default whose given value had to be kept out of an INSERT, key carried but omitted, chain calls reordered, call form of the Select list and of the Omit list incl. the separator of a comma-joined one, cells written through an embedded struct, embedding forms of the model, roles of the duplicate fields next to a checked cell, container and element forms of a Model(slice), an empty non-nil collection value had to be written, form of the RETURNING clause, first or second finisher on the handle, FirstOrCreate path / Model on the chain / forms of Attrs and Assign / inline condition, association type / pointer forms / owner container / records already carried, chain with or without Table, type and tag of every relation field that carried records and whether the path may write it, OnConflict form: condition / condition splits the conflicting rows / target predicate / key named / through CreateInBatches); non-trivial = at least one cell had to be written or refreshed, or a given value had to be kept out by a permission tag / Select / Omit, or the records of a relation field without permission had to be kept out of the relation's tables, or a conflicting row outside the condition of a conditional upsert had to be left alone, or a differing in-memory value of an owner had to be kept out by association mode, or a found record had to be left alone for want of Assign",
+		"distinct = (finisher, target form, Select/Omit mode and spelling, permission tags denied, value forms, which check classes occurred, key kind, kinds of default whose given value had to be kept out of an INSERT, key carried but omitted, chain calls reordered, call form of the Select list and of the Omit list incl. the separator of a comma-joined one, cells written through an embedded struct, embedding forms of the model, roles of the duplicate fields next to a checked cell, container and element forms of a Model(slice), an empty non-nil collection value had to be written, form of the RETURNING clause, first or second finisher on the handle, FirstOrCreate path / Model on the chain / forms of Attrs and Assign / inline condition, association type / pointer forms / owner container / records already carried, chain with or without Table, type and tag of every relation field that carried records and whether the path may write it, OnConflict form: condition / condition splits the conflicting rows / target predicate / key named / through CreateInBatches, join form of the conditions (w, ww, wo, woo, wwo, wwoo), soft-delete model with no / some soft-deleted rows / Unscoped, a soft-deleted row matched the conditions or the key); non-trivial = at least one cell had to be written or refreshed, or a given value had to be kept out by a permission tag / Select / Omit, or the records of a relation field without permission had to be kept out of the relation's tables, or a conflicting row outside the condition of a conditional upsert had to be left alone, or a differing in-memory value of an owner had to be kept out by association mode, or a found record had to be left alone for want of Assign",
 	Assumptions: []string{
 		"the table is created with raw SQL (the migrator is not under test); reflect.StructOf types have no name, so three chains in four start with db.Table(name) and the handle's NamingStrategy maps the empty type name to the table of the running case (stands for a TableName method; every case's type is made unique by a second tag key on its first field, gorm caches one schema per type); ignored fields (`-`, `-:all`) get a ghost column so that a write to them is visible",
 		"`->:false` without a `<-` tag: the statement does not fix its write permission, the column is not checked in addressed rows (rows outside the target are)",
@@ -840,6 +949,8 @@ var Engine = &core.Engine{
 		"Omit('*') only on Updates/Update/UpdateColumn(s); Save of a new key and Save under a condition only with Omit; upsert with explicit DoUpdates without Select/Omit; UpdateAll only with Omit",
 		"batches carry either only zero keys or only explicit keys; the new keys are then max+1.. (SQLite rowid) resp. the given ones; composite keys of records (creates, upserts, Save) and of STRUCT model values are always given completely (both parts non-zero): a struct value with a partly zero key is addressed by its non-zero parts only, which the statement does not fix; rows with a partly zero key are addressed by conditions and by the elements of a Model(slice), whose keys are taken literally, zero parts included",
 		"conditions are evaluated by SQLite itself (raw SELECT) to get the target set; their rendering is C02's subject",
+		"Or: only behind every Where of the chain (Where(a).Or(b).Where(c) renders a OR b AND c: which grouping is meant is not fixed by the statement), only on update chains whose Model value carries no key and is not a slice (how a key of the model value combines with an Or chain is not fixed: C02 reads it as one more AND unit of the last OR group), never on Save, FirstOrCreate or association chains; the reference evaluates (a AND b) OR c OR d with every condition parenthesised",
+		"soft delete: the reading is that a soft-deleted row is outside every chain that is not Unscoped, so no update finisher may change any of its cells; soft-deleted rows exist only while an update finisher runs: Save of a record whose row is soft-deleted (UPDATE matches nothing, the fallback upsert rewrites the row), upserts conflicting with a soft-deleted row, FirstOrCreate and association calls over soft-deleted rows are not fixed by this statement and not generated; no operation hands a value over for the DeletedAt field (it is not among the model's data fields: never named in Select / Omit / a map, always zero in a struct), the field carries no permission tag and sits at the top level; RowsAffected is not checked",
 		"default values: a zero struct value of a field with a default must end up as the default OR as the zero value (the statement does not say which); in an upsert conflict row the new value of such a field is not checked when it is zero or when the default is database-evaluated (UpdateAll leaves those columns out), while denied / omitted / unlisted columns must still stay; in a batch of maps a key only other maps carry is not checked on a default column (NULL versus default)",
 		"within one batch of structs a database-evaluated default field is zero in every record or non-zero in every record (for a mixed batch gorm renders the DEFAULT keyword, which SQLite does not parse); time, slice and map fields only get default:null; key, tracked-time and ignored fields get no default",
 		"a field tagged ->:false (not readable) gets no default: gorm adds RETURNING <col> for database-default fields and fails to scan it back into an unreadable field (Scan error / nil field dereference in gorm.Scan, later rows of the batch not inserted): a read-back matter outside this statement, see the report of the strengthening round",
